@@ -44,6 +44,49 @@ fn gen_history(r: &mut Rng, cfg: &SysCfg, ntypes: u64, len: usize, crashes: bool
     ops
 }
 
+/// Histories around a kill INSIDE a segment write (`XM`): 0-2 completed segments, a rotation
+/// (possibly with more stores queued behind it), the kill, then further stores, flush-worker
+/// steps, reads and plain kills.
+fn gen_mid_history(r: &mut Rng, cfg: &SysCfg, ntypes: u64) -> Vec<Op> {
+    let cap = cfg.capacity() as u64;
+    let mut ops = vec![];
+    let mut k = 0u64;
+    let nctx = 1 + r.below(3);
+    let mut store = |ops: &mut Vec<Op>, n: u64, r: &mut Rng| {
+        for _ in 0..n {
+            k += 1;
+            ops.push(Op::S { k, ctx: r.below(nctx), ty: r.below(ntypes) });
+        }
+    };
+    let pre = if r.below(6) == 0 { 0 } else { 1 + r.below(2) };
+    for _ in 0..pre {
+        store(&mut ops, cap, r);
+        ops.push(Op::Run);
+    }
+    store(&mut ops, cap + r.below(cap + 1), r);
+    ops.push(Op::Xm);
+    ops.push(Op::R);
+    ops.push(Op::Ls);
+    for _ in 0..(1 + r.below(3)) {
+        store(&mut ops, 1 + r.below(2 * cap), r);
+        match r.below(4) {
+            0 => ops.push(Op::Run),
+            1 => ops.push(Op::Adv),
+            2 => ops.push(Op::Xm),
+            _ => {}
+        }
+        ops.push(Op::R);
+        if r.below(2) == 0 {
+            ops.push(Op::X);
+            ops.push(Op::R);
+        }
+    }
+    ops.push(Op::Run);
+    ops.push(Op::R);
+    ops.push(Op::Ls);
+    ops
+}
+
 fn witnesses() -> Vec<(SysCfg, u64, Vec<Op>)> {
     let c4 = SysCfg { event_per_zone: 2, fill_factor: 2, ..Default::default() };
     let c2 = SysCfg { event_per_zone: 1, fill_factor: 2, ..Default::default() };
@@ -71,19 +114,15 @@ fn main() {
         walbuf_stream(&a);
         return;
     }
-    if a.stream == "crashmid" {
-        crashmid_stream(&a);
-        return;
-    }
     let crashes = match a.stream.as_str() {
-        "crash" => true,
+        "crash" | "crashmid" => true,
         other => {
             eprintln!("unknown stream {other}");
             std::process::exit(2);
         }
     };
     let mut st = Stream::create(&a.out, &a.stream);
-    let wits = witnesses();
+    let wits = if a.stream == "crashmid" { vec![] } else { witnesses() };
     let nw = wits.len() as u64;
     for i in 0..(a.cases + nw) {
         if a.only.is_some_and(|o| o != i) {
@@ -101,7 +140,7 @@ fn main() {
             };
             let ntypes = if r.chance(7, 10) { 1 } else { 2 };
             let len = 8 + r.below(30) as usize;
-            let ops = gen_history(&mut r, &cfg, ntypes, len, crashes);
+            let ops = if a.stream == "crashmid" { gen_mid_history(&mut r, &cfg, ntypes) } else { gen_history(&mut r, &cfg, ntypes, len, crashes) };
             (cfg, ntypes, ops)
         };
         let root = a.out.join(format!("{}-{i}", a.stream));
@@ -123,7 +162,15 @@ fn main() {
                 let racy = *op == Op::R && ex.last_read_racy;
                 if racy { line = ex.last_real_read.clone(); }
                 if *op == Op::R && ex.poisoned {
+                    // not compared with the model; judged by the oracle under its own class
                     st.tally("poisoned_reads");
+                    let real = ex.last_real_read.clone();
+                    let want_keys = if applied.is_empty() { "-".to_string() } else { applied.iter().map(|k| k.to_string()).collect::<Vec<_>>().join(",") };
+                    let gk = real.split(' ').next().unwrap().trim_start_matches("keys=").to_string();
+                    let gc: usize = real.split("count=").nth(1).and_then(|x| x.parse().ok()).unwrap_or(0);
+                    if fail.is_none() && !ex.last_read_racy && !ex.flush_window() && (gk != want_keys || (ntypes == 1 && gc != applied.len())) {
+                        fail = Some(format!("kill-in-first-segment-write\top#{n}: want keys [{want_keys}] count {} got [{real}] in {}", applied.len(), history_line(&cfg, ntypes, &ops)));
+                    }
                     line = "poisoned".to_string();
                 } else if racy {
                     st.tally("racy_reads");
@@ -308,106 +355,6 @@ fn walbuf_stream(a: &snel_harness::out::Args) {
         match fail {
             None => st.oracle_ok(),
             Some(d) => st.oracle_fail(i, "-", &format!("{d}; {op}")),
-        }
-    }
-    st.finish();
-}
-
-
-/// Oracle-only: kills INSIDE a segment write (directory created, files incomplete), which the
-/// step machine of the `crash` stream takes as one step. After the restart, and after any further
-/// stores, flushes and restarts, every acknowledged event must be served exactly once.
-fn crashmid_stream(a: &snel_harness::out::Args) {
-    const MID: [&str; 2] = ["zonewriter.meta_written", "zonewriter.cols_written"];
-    let mut st = Stream::create(&a.out, "crashmid");
-    for i in 0..a.cases {
-        if a.only.is_some_and(|o| o != i) {
-            continue;
-        }
-        let mut r = Rng::for_case(a.seed, "crashmid", i);
-        let cfg = SysCfg { event_per_zone: 1 + r.below(3) as usize, fill_factor: 1 + r.below(3) as usize, ..Default::default() };
-        let cap = cfg.capacity() as u64;
-        let point = MID[(i % 2) as usize];
-        let root = a.out.join(format!("crashmid-{i}"));
-        let _ = std::fs::remove_dir_all(&root);
-        let mut ex = Exec::start(&root, &cfg, 1);
-        let mut applied: Vec<u64> = vec![];
-        let mut k = 0u64;
-        let mut desc = format!("crashmid cap={cap} kill@{point}:");
-        let mut fail: Option<(String, String)> = None;
-        let mut store = |ex: &mut Exec, n: u64, applied: &mut Vec<u64>, k: &mut u64, r: &mut Rng, desc: &mut String| {
-            for _ in 0..n {
-                *k += 1;
-                ex.exec(&Op::S { k: *k, ctx: r.below(3), ty: 0 });
-                applied.push(*k);
-            }
-            desc.push_str(&format!(" S{n}"));
-        };
-        let judge = |ex: &mut Exec, applied: &Vec<u64>, at: &str, fail: &mut Option<(String, String)>| {
-            if ex.racy_state() {
-                return;
-            }
-            let in_window = ex.flush_window();
-            let line = ex.read();
-            let want = if applied.is_empty() { "-".to_string() } else { applied.iter().map(|k| k.to_string()).collect::<Vec<_>>().join(",") };
-            let gk = line.split(' ').next().unwrap().trim_start_matches("keys=").to_string();
-            let gc: usize = line.split("count=").nth(1).unwrap().parse().unwrap();
-            if fail.is_some() {
-                return;
-            }
-            if gk != want {
-                let got: std::collections::BTreeSet<&str> = gk.split(',').collect();
-                let lost: Vec<u64> = applied.iter().copied().filter(|k| !got.contains(k.to_string().as_str())).collect();
-                let class = if !lost.is_empty() && lost.iter().all(|k| ex.orphaned.contains(k)) { "wal-segment-id-skew-loses-acknowledged" } else { "-" };
-                *fail = Some((class.into(), format!("{at}: want keys [{want}] got [{line}]")));
-            } else if gc != applied.len() && !in_window {
-                let class = if gc > applied.len() { "wal-replay-duplicates-flushed-events" } else { "-" };
-                *fail = Some((class.into(), format!("{at}: want count {} got [{line}]", applied.len())));
-            }
-        };
-        // earlier, completed segments (sometimes)
-        let pre = if r.below(6) == 0 { 0 } else { 1 + r.below(2) };
-        for _ in 0..pre {
-            store(&mut ex, cap, &mut applied, &mut k, &mut r, &mut desc);
-            ex.exec(&Op::Run);
-            desc.push_str(" RUN");
-        }
-        // the rotation whose write is killed, possibly with more stores queued behind it
-        store(&mut ex, cap + r.below(cap + 1), &mut applied, &mut k, &mut r, &mut desc);
-        // Without an index file the restart still serves every directory, and the next index
-        // save rebuilds the index from the directory listing (finding
-        // C01-kill-in-first-segment-write): from then on the incomplete directory is registered.
-        let no_index = !ex.s.shard_data_dir(0).join("segments.idx").exists();
-        let killed = ex.crash_in_write(point);
-        desc.push_str(if killed { " KILL-IN-WRITE" } else { " (no job at its start)" });
-        judge(&mut ex, &applied, "after the restart", &mut fail);
-        // life goes on
-        for round in 0..(1 + r.below(3)) {
-            store(&mut ex, 1 + r.below(2 * cap), &mut applied, &mut k, &mut r, &mut desc);
-            match r.below(3) {
-                0 => { ex.exec(&Op::Run); desc.push_str(" RUN"); }
-                1 => { ex.exec(&Op::Adv); desc.push_str(" ADV"); }
-                _ => {}
-            }
-            judge(&mut ex, &applied, &format!("round {round}"), &mut fail);
-            if r.below(2) == 0 {
-                ex.exec(&Op::X);
-                desc.push_str(" X");
-                judge(&mut ex, &applied, &format!("round {round} after X"), &mut fail);
-            }
-        }
-        drop(ex);
-        let _ = std::fs::remove_dir_all(&root);
-        st.tally(point);
-        st.tally(if killed { "killed_in_write" } else { "not_killed" });
-        st.case(&desc, "-", killed);
-        st.tally(if no_index { "kill_without_index_file" } else { "kill_with_index_file" });
-        match fail {
-            None => st.oracle_ok(),
-            Some((c, d)) => {
-                let c = if killed && no_index { "kill-in-first-segment-write".to_string() } else { c };
-                st.oracle_fail(i, &c, &format!("{d}; {desc}"))
-            }
         }
     }
     st.finish();
